@@ -1363,7 +1363,7 @@ Proof.
   assert (k_tag (wkey o) <> c09_tag_entry_batch) as HT; [|apply HT; rewrite X; reflexivity].
   apply in_app_or in HI. destruct HI as [HI|HI].
   - apply in_app_or in HI. destruct HI as [HI|HI].
-    + now apply (remove_node_wb_no_batch n _ o).
+    + exact (remove_node_wb_no_batch n _ o HI).
     + destruct HI as [<-|[<-|[]]]; cbn; ktags; discriminate.
   - apply in_app_or in HI. destruct HI as [HI|[<-|[]]]; [|cbn; ktags; discriminate].
     unfold save_snapshot_wb in E2. destruct (ss_emptyb ss).
